@@ -798,7 +798,6 @@ ASSUME = [
     "Print Assumptions for every theorem of props/C07.v: see coverage.print_assumptions",
     "ValidOrder of the theorems is stronger than the statement's (it also keeps @variables between @namespace and the "
     "style-level rules); ValidOrder_statement derives the statement's clauses from it",
-    "rejected_unchanged_partial excludes only sheet.cssText= ending in NoModificationAllowedErr from the final "
-    "_cleanNamespaces (no such history is known)",
+    "rejected_unchanged is unconditional (every op, every outcome); parse_clean_never_raises backs the cssText= case",
     "re-parse is compared on the top-level rule kinds (the statement's 'sequence of rules')",
 ]
